@@ -15,7 +15,8 @@ LEVEL = "model_checking"
 TECHNIQUE = "explicit-state BFS over real objects with a reference flow-control model"
 RULE = ("BFS over histories of {write(1|3|5), writeExtended(type 1|2, 1|3 bytes), arm a producer that writes 2 bytes from "
         "startWriting(), loseConnection, receiver loseConnection, deliver head A->B, deliver head B->A, receiver adjustWindow(1|2)} on a real SSHConnection pair with one open channel, for every "
-        "receiver window in {1,2,3,4,5} x receiver max packet in {1,2,3}; after every transition the messages the sender "
+        "receiver window in {1,2,3,4,5} x receiver max packet in {1,2,3} (the sender advertises a different window and max "
+        "packet for the reverse direction: smaller or larger depending on the configuration); after every transition the messages the sender "
         "emitted are checked against a reference window (initial window + adjustments delivered - bytes sent) and the "
         "peer's max packet, streams against what was written, CLOSE against unsent data, and every delivered conforming "
         "data message must reach the receiving channel. non-trivial = distinct canonical states in which data was "
@@ -133,6 +134,12 @@ def classes():
     return _classes
 
 
+def a_side(win, maxp):
+    """Window / max packet that side A advertises: max packet smaller than B's when B's is > 1, else larger; window
+    smaller than B's when B's is > 2, else larger."""
+    return (1 if win > 2 else 7), (1 if maxp > 1 else 9)
+
+
 class St:
     def __init__(self, win, maxp, limits):
         RecChannel, Conn = classes()
@@ -146,7 +153,9 @@ class St:
         self.B.transport = FakeTransport(self.logBA)
         self.A.serviceStarted()
         self.B.serviceStarted()
-        self.chA = RecChannel(localWindow=7, localMaxPacket=9)
+        # the opener's own limits differ from the receiver's, in both orders (they must not influence the A->B direction)
+        a_win, a_maxp = a_side(win, maxp)
+        self.chA = RecChannel(localWindow=a_win, localMaxPacket=a_maxp)
         self.A.openChannel(self.chA)
         self.B.packetReceived(*self.logAB[0])
         self.A.packetReceived(*self.logBA[0])
